@@ -1,20 +1,22 @@
 #!/bin/bash
-# selftest_recent.sh <pattern>...: tools/selftest.sh restricted to the seeded directories whose name matches one
-# of the given grep patterns (e.g. '-r13-' '-r14-'); same report format, written to selftest-recent-report.json.
+# selftest_recent.sh <substring>...: tools/selftest.sh restricted to the seeded directories whose name contains one
+# of the given substrings (e.g. -r13- -r14-); same report format, written to selftest-recent-report.json.
 cd "$(dirname "$0")/.."
-pat=$(printf "%s\\|" "$@"); pat=${pat%\\|}
-tmp=$(mktemp -d /tmp/selftest-recent.XXXX)
-mkdir -p $tmp/seeded
-for d in seeded/*/; do n=$(basename $d); echo "$n" | grep -q "$pat" && ln -s "$PWD/$d" $tmp/seeded/$n; done
-ls $tmp/seeded | wc -l
+names=$(python3 - "$@" <<'PY'
+import os,sys
+for n in sorted(os.listdir('seeded')):
+    if any(s in n for s in sys.argv[1:]) and os.path.isfile(f'seeded/{n}/meta.json'): print(n)
+PY
+)
+echo "$(echo "$names" | wc -l) seeded changes selected"
 out=selftest-recent-report.json
 echo "[" > $out.tmp; first=1
-for d in $tmp/seeded/*/; do
-  name=$(basename $d)
+for name in $names; do
+  d=seeded/$name
   wt=/tmp/selftest-$name
   git -C /repo worktree remove --force $wt >/dev/null 2>&1
   git -C /repo worktree add -q $wt HEAD || { echo "cannot create worktree"; exit 2; }
-  if ! git -C $wt apply "$d/patch.diff"; then echo "$name: patch does not apply to HEAD"; applied=false; else applied=true; fi
+  if ! git -C $wt apply "$PWD/$d/patch.diff"; then echo "$name: patch does not apply to HEAD"; applied=false; else applied=true; fi
   for c in $(python3 -c "import json;print(' '.join(json.load(open('$d/meta.json'))['detected_by']))"); do
     start=$(date +%s)
     o=$(VERIF_REPO=$wt VERIF_SEED=${VERIF_SEED:-1} ./check $c quick 2>&1); rc=$?
@@ -26,7 +28,7 @@ for d in $tmp/seeded/*/; do
   done
   git -C /repo worktree remove --force $wt
 done
-echo "]" >> $out.tmp; mv $out.tmp $out; rm -rf $tmp
+echo "]" >> $out.tmp; mv $out.tmp $out
 python3 -c "
 import json
 r=json.load(open('$out'))
